@@ -241,6 +241,53 @@ func (s *SelectStmt) checkFieldCycles() error {
 	return nil
 }
 
+// resolveFieldNames replaces the field names used inside the select fields by
+// references to the fields they name, as Check does for the operands it visits,
+// but for every field before any of them is type checked. The type of a reference
+// is the type of the field it points to, and that type is only final once the names
+// inside that field have been resolved too (`zq1 + 'x' as zq0, key as zq1`: zq0 is
+// a number while zq1 is an unresolved name and a string once it refers to key).
+// With the names resolved first, the fields, the WHERE clause and the GROUP BY
+// fields are checked against the same types whatever the order of the fields.
+// Must run after checkFieldCycles: the references of a cycle would never end.
+func (s *SelectStmt) resolveFieldNames(ctx *CheckCtx) {
+	resolve := func(e Expression) Expression {
+		if nexp, ok := e.(*NameExpr); ok {
+			if fexpr, have := ctx.GetNamedExpr(nexp.Data); have {
+				return &FieldReferenceExpr{Name: nexp, FieldExpr: fexpr}
+			}
+		}
+		return e
+	}
+	walkcb := func(e Expression) bool {
+		switch x := e.(type) {
+		case *BinaryOpExpr:
+			x.Left = resolve(x.Left)
+			x.Right = resolve(x.Right)
+		case *NotExpr:
+			x.Right = resolve(x.Right)
+		case *FunctionCallExpr:
+			for i, arg := range x.Args {
+				x.Args[i] = resolve(arg)
+			}
+		case *ListExpr:
+			for i, item := range x.List {
+				x.List[i] = resolve(item)
+			}
+		case *FieldAccessExpr:
+			x.Left = resolve(x.Left)
+		case *FieldReferenceExpr:
+			// the field it points to is resolved in its own turn
+			return false
+		}
+		return true
+	}
+	for _, f := range s.Fields {
+		// (a field that is only a name stays a name, see checkFieldCycles)
+		f.Walk(walkcb)
+	}
+}
+
 func (s *SelectStmt) ValidateFields(ctx *CheckCtx) error {
 	for _, f := range s.Fields {
 		if err := s.validateField(f, ctx); err != nil {
